@@ -81,6 +81,15 @@ def run(ctx):
         for fam, kw in [('cf1d', dict(ny=12, nx=15)), ('cf2d', dict(ny=9, nx=11)), ('shoc_standard', dict(nj=7, ni=9))]:
             datasets.append(gen.any_dataset(rng, fam, **kw))
 
+    # data variables are not part of the index arithmetic: every other dataset carries, as its FIRST data variable, one
+    # that lists the surface dimensions in reverse order ((lon, lat): legal), every fourth is held column-major in memory
+    for k, d in enumerate(datasets):
+        if k % 2 == 1:
+            d.ds = gen.leading_reversed_var(rng, d.ds, d.spec['kinds'])
+            ctx.count('first_data_variable:surface dimensions reversed')
+        if k % 4 == 2:
+            d.ds = gen.fortran_layout(d.ds)
+            ctx.count('memory_layout:column-major')
     exprs = []
     plans = []
     for d in datasets:
